@@ -238,7 +238,7 @@ def _stmt_assigns(stmt, name):
     return False
 
 
-def _Harness_slice(self, qualname, first=None, last=None, first_assign=None, last_assign=None, until_raise=None, env=None, body_of=None, first_is_last_assignment=False):
+def _Harness_slice(self, qualname, first=None, last=None, first_assign=None, last_assign=None, until_raise=None, env=None, body_of=None, first_is_last_assignment=False, after_last_compound_storing=None):
     """Execute a contiguous slice of the top-level statements of the REAL function `qualname`:
     from the first statement assigning `first_assign` through the last statement assigning `last_assign`
     (or the `if` statement that raises `until_raise`).  Statements before the slice are NOT executed: the
@@ -262,8 +262,26 @@ def _Harness_slice(self, qualname, first=None, last=None, first_assign=None, las
                 if isinstance(n, ast.Raise) and n.exc is not None and until_raise in ast.dump(n.exc):
                     i1 = i
                     break
+    if after_last_compound_storing:
+        # start right after the last COMPOUND top-level statement (if / for / while / with / try) that stores into the
+        # name (assignment, augmented or subscript store anywhere inside it): everything up to there is arbitrary
+        nm = after_last_compound_storing
+        for i, st in enumerate(body):
+            if isinstance(st, (ast.If, ast.For, ast.While, ast.With, ast.Try)) and (i1 is None or i < i1):
+                for n in ast.walk(st):
+                    tg = []
+                    if isinstance(n, ast.Assign):
+                        tg = n.targets
+                    elif isinstance(n, (ast.AugAssign, ast.AnnAssign)):
+                        tg = [n.target]
+                    for t_ in tg:
+                        base = t_
+                        while isinstance(base, (ast.Subscript, ast.Attribute)):
+                            base = base.value
+                        if isinstance(base, ast.Name) and base.id == nm:
+                            i0 = i + 1
     if i0 is None or i1 is None or i1 < i0:
-        raise Undecided(f"slice {first_assign}..{last_assign or until_raise} not found in {qualname}")
+        raise Undecided(f"slice {first_assign or after_last_compound_storing}..{last_assign or until_raise} not found in {qualname}")
     e = Env(self.interp.module_env(fs.mod))
     from .interp import Closure
 
@@ -273,6 +291,10 @@ def _Harness_slice(self, qualname, first=None, last=None, first_assign=None, las
     try:
         self.interp.exec_block(body[i0 : i1 + 1], e)
     except SymRaise as ex:
+        if ex.exc.clsname == "NameError" and ex.exc.args and ex.exc.args[0] not in (env or {}):
+            # the slice reads a local that is defined before it and that the harness did not supply: a limit of the slice
+            # (e.g. after statements were moved), never a finding about the code
+            raise Undecided(f"slice of {qualname} reads {ex.exc.args[0]!r}, which is defined before the slice")
         return "raise", ex.exc
     return "ok", e.vars
 
